@@ -112,6 +112,8 @@ impl ConnectionManager {
         // more smeared out over time to avoid spiky load / thundering herd issues where all dial
         // requests happen around the same time.
         let jitter = std::time::Duration::from_millis(1_000).mul_f64(rand::random::<f64>());
+        #[cfg(bmwill_anemo_verif)]
+        let jitter = crate::verif::jitter_override().unwrap_or(jitter);
         let mut interval =
             tokio::time::interval(self.config.connectivity_check_interval() + jitter);
 
@@ -314,6 +316,14 @@ impl ConnectionManager {
                 let peer_id = new_connection.peer_id();
                 debug!(peer_id =% peer_id, "new connection");
                 self.add_peer(new_connection);
+                #[cfg(bmwill_anemo_verif)]
+                crate::verif::trace(format!(
+                    "connected own={} peer={} listed={} reply={}",
+                    self.endpoint.peer_id(),
+                    peer_id,
+                    self.active_peers.inner().contains(&peer_id),
+                    maybe_oneshot.is_some()
+                ));
                 if let Some(oneshot) = maybe_oneshot {
                     let _ = oneshot.send(Ok(peer_id));
                 }
@@ -429,6 +439,13 @@ impl ConnectionManager {
         peer_id: Option<PeerId>,
         oneshot: oneshot::Sender<Result<PeerId>>,
     ) {
+        #[cfg(bmwill_anemo_verif)]
+        crate::verif::trace(format!(
+            "dial own={} peer={:?} address={:?}",
+            self.endpoint.peer_id(),
+            peer_id,
+            address
+        ));
         self.pending_connections.spawn(Self::dial_peer_task(
             self.endpoint.clone(),
             address,
@@ -601,6 +618,11 @@ impl ActivePeersInner {
     fn subscribe(&self) -> (broadcast::Receiver<PeerEvent>, Vec<PeerId>) {
         let peers = self.peers();
         let receiver = self.peer_event_sender.subscribe();
+        #[cfg(bmwill_anemo_verif)]
+        crate::verif::trace(format!(
+            "active inst={:p} subscribe snapshot={:?}",
+            self, peers
+        ));
         (receiver, peers)
     }
 
@@ -621,6 +643,14 @@ impl ActivePeersInner {
     }
 
     fn remove(&mut self, peer_id: &PeerId, reason: DisconnectReason) {
+        #[cfg(bmwill_anemo_verif)]
+        crate::verif::trace(format!(
+            "active inst={:p} remove peer={} reason={:?} present={}",
+            self,
+            peer_id,
+            reason,
+            self.connections.contains_key(peer_id)
+        ));
         if let Some(connection) = self.connections.remove(peer_id) {
             // maybe actually provide reason to other side?
             connection.close();
@@ -635,6 +665,15 @@ impl ActivePeersInner {
         stable_id: usize,
         reason: DisconnectReason,
     ) {
+        #[cfg(bmwill_anemo_verif)]
+        crate::verif::trace(format!(
+            "active inst={:p} remove_stable peer={} id={} reason={:?} current={:?}",
+            self,
+            peer_id,
+            stable_id,
+            reason,
+            self.connections.get(&peer_id).map(|c| c.stable_id())
+        ));
         match self.connections.entry(peer_id) {
             Entry::Occupied(entry) => {
                 // Only remove the entry if the stable id matches
@@ -660,6 +699,18 @@ impl ActivePeersInner {
         // TODO drop Connection if you've somehow connected out ourself
 
         let peer_id = new_connection.peer_id();
+        #[cfg(bmwill_anemo_verif)]
+        crate::verif::trace(format!(
+            "active inst={:p} add own={} peer={} id={} origin={:?} existing={:?}",
+            self,
+            own_peer_id,
+            peer_id,
+            new_connection.stable_id(),
+            new_connection.origin(),
+            self.connections
+                .get(&peer_id)
+                .map(|c| (c.stable_id(), c.origin()))
+        ));
         match self.connections.entry(peer_id) {
             Entry::Occupied(mut entry) => {
                 if Self::simultaneous_dial_tie_breaking(
@@ -843,6 +894,178 @@ pub(crate) mod verif_hooks {
             existing_origin,
             new_origin,
         )
+    }
+
+    /// Wrapper around a `Connection`.
+    #[derive(Clone, Debug)]
+    pub struct VerifConnection(pub(crate) Connection);
+
+    impl VerifConnection {
+        pub fn peer_id(&self) -> PeerId {
+            self.0.peer_id()
+        }
+        pub fn origin(&self) -> ConnectionOrigin {
+            self.0.origin()
+        }
+        pub fn stable_id(&self) -> usize {
+            self.0.stable_id()
+        }
+        pub fn close(&self) {
+            self.0.close()
+        }
+        pub fn close_reason(&self) -> Option<DisconnectReason> {
+            self.0
+                .verif_close_reason()
+                .map(|e| DisconnectReason::from_quinn_error(&e))
+        }
+        pub async fn handshake(self) -> Result<VerifConnection> {
+            crate::network::verif_wire::handshake(self.0)
+                .await
+                .map(VerifConnection)
+        }
+    }
+
+    /// Wrapper around an `Endpoint`.
+    #[derive(Clone, Debug)]
+    pub struct VerifEndpoint(pub(crate) Arc<Endpoint>);
+
+    impl VerifEndpoint {
+        pub fn new(
+            server_name: &str,
+            alternate_server_name: Option<&str>,
+            private_key: [u8; 32],
+            socket: std::net::UdpSocket,
+        ) -> Result<Self> {
+            let config = crate::config::EndpointConfig::builder()
+                .server_name(server_name)
+                .alternate_server_name(alternate_server_name)
+                .private_key(private_key)
+                .build()?;
+            Ok(Self(Arc::new(Endpoint::new(config, socket)?)))
+        }
+        pub fn peer_id(&self) -> PeerId {
+            self.0.peer_id()
+        }
+        pub fn local_addr(&self) -> std::net::SocketAddr {
+            self.0.local_addr()
+        }
+        pub async fn connect(&self, address: std::net::SocketAddr) -> Result<VerifConnection> {
+            self.0.connect(address)?.await.map(VerifConnection)
+        }
+        pub async fn connect_with_expected_peer_id(
+            &self,
+            address: std::net::SocketAddr,
+            peer_id: PeerId,
+        ) -> Result<VerifConnection> {
+            self.0
+                .connect_with_expected_peer_id(address, peer_id)?
+                .await
+                .map(VerifConnection)
+        }
+        pub async fn accept(&self) -> Option<Result<VerifConnection>> {
+            match self.0.accept().await {
+                Some(connecting) => Some(connecting.await.map(VerifConnection)),
+                None => None,
+            }
+        }
+        pub fn close(&self) {
+            self.0.close()
+        }
+    }
+
+    /// Wrapper around `ActivePeers`.
+    #[derive(Clone, Debug)]
+    pub struct VerifActivePeers(pub(crate) ActivePeers);
+
+    impl VerifActivePeers {
+        pub fn new(channel_size: usize) -> Self {
+            Self(ActivePeers::new(channel_size))
+        }
+        pub fn add(
+            &self,
+            own_peer_id: &PeerId,
+            new_connection: VerifConnection,
+        ) -> Option<VerifConnection> {
+            self.0.add(own_peer_id, new_connection.0).map(VerifConnection)
+        }
+        pub fn remove(&self, peer_id: &PeerId, reason: DisconnectReason) {
+            self.0.remove(peer_id, reason)
+        }
+        pub fn remove_with_stable_id(
+            &self,
+            peer_id: PeerId,
+            stable_id: usize,
+            reason: DisconnectReason,
+        ) {
+            self.0.remove_with_stable_id(peer_id, stable_id, reason)
+        }
+        pub fn peers(&self) -> Vec<PeerId> {
+            self.0.peers()
+        }
+        pub fn get(&self, peer_id: &PeerId) -> Option<VerifConnection> {
+            self.0.get(peer_id).map(VerifConnection)
+        }
+        pub fn subscribe(&self) -> (broadcast::Receiver<PeerEvent>, Vec<PeerId>) {
+            self.0.subscribe()
+        }
+        pub fn len(&self) -> usize {
+            self.0.len()
+        }
+    }
+
+    /// Wrapper around a `ConnectionManager` that is driven by the harness instead of `start()`.
+    pub struct VerifConnectionManager {
+        cm: ConnectionManager,
+        _sender: mpsc::Sender<ConnectionManagerRequest>,
+    }
+
+    impl VerifConnectionManager {
+        pub fn new(
+            config: Config,
+            endpoint: &VerifEndpoint,
+            active_peers: &VerifActivePeers,
+            known_peers: KnownPeers,
+            service: BoxCloneService<Request<Bytes>, Response<Bytes>, Infallible>,
+        ) -> Self {
+            let (cm, sender) = ConnectionManager::new(
+                Arc::new(config),
+                endpoint.0.clone(),
+                active_peers.0.clone(),
+                known_peers,
+                service,
+            );
+            Self {
+                cm,
+                _sender: sender,
+            }
+        }
+        pub fn handle_connectivity_check(&mut self, now: std::time::Instant) {
+            self.cm.handle_connectivity_check(now)
+        }
+        /// Hands every finished connecting task to `handle_connecting_result`, as the event loop
+        /// of `start()` does; returns how many were handled.
+        pub fn drain_connecting_results(&mut self) -> usize {
+            use futures::FutureExt;
+            let mut n = 0;
+            while let Some(Some(output)) = self.cm.pending_connections.join_next().now_or_never() {
+                self.cm.handle_connecting_result(output.unwrap());
+                n += 1;
+            }
+            n
+        }
+        pub fn pending_dials(&self) -> Vec<PeerId> {
+            self.cm.pending_dials.keys().copied().collect()
+        }
+        pub fn backoff_states(&self) -> Vec<(PeerId, std::time::Instant, usize)> {
+            self.cm
+                .dial_backoff_states
+                .iter()
+                .map(|(k, v)| (*k, v.backoff, v.attempts))
+                .collect()
+        }
+        pub fn pending_connections_len(&self) -> usize {
+            self.cm.pending_connections.len()
+        }
     }
 
     /// Wrapper around `DialBackoffState`.
